@@ -178,6 +178,8 @@ def wrapper_line(rng, valid=True):
     body = 'PGHP,1,%d,%d,%d,%d,%d,%d,%d,%s,%s,%s,%d,%02X' % (y, mo, d, h, mi, s, ms, country, region, pss, online,
                                                             rng.randrange(256))
     line = b'$' + body.encode() + b'*' + format(ais.xor_checksum(body.encode()), '02X').encode()
+    if rng.random() < 0.2:
+        line = b'\\' + tag_block(rng) + b'\\' + line          # a wrapper line may carry a tag block like any other sentence
     d_ = {'kind': 'wrapper' if valid else 'badwrapper', 'hex': line.hex()}
     if valid:
         d_['fields'] = [[y, mo, d, h, mi, s, ms * 1000], country, region, pss, online]
